@@ -81,6 +81,16 @@ def run(ctx):
     for nm in ("name)", "(name", "name version", "name,", ",name", "EIP712Domain(string name", "string name", "name\u0000", "name "):
         cases.append(([(nm, "string")], "foreign-name/fused-with-separator"))
         cases.append(([STD[0], (nm, "string")], "foreign-name/fused-with-separator"))
+    # more members than there are standard fields: all five plus a repeated / foreign one at each position, and longer
+    for pos in range(6):
+        for extra in list(STD) + [("extra", "string")]:
+            ms = list(STD)
+            ms.insert(pos, extra)
+            cases.append((ms, "more-than-five-members"))
+    for n_ in (7, 8, 16, 64, 257):
+        cases.append((list(STD) + [STD[4]] * (n_ - 5), "more-than-five-members"))
+        cases.append(([STD[0]] * n_, "more-than-five-members"))
+        cases.append((list(STD) + [("x%d" % i, "string") for i in range(n_ - 5)], "more-than-five-members"))
     for k in range(1, 6):
         for sub in itertools.combinations(STD, k):
             for i in range(k):
@@ -97,8 +107,8 @@ def run(ctx):
             uniq.append((ms, cls))
     cases = uniq
     if not thorough:
-        keep = [c for c in cases if c[1].startswith("ordering") or c[1].startswith("foreign-name/fused")]
-        rest = [c for c in cases if not (c[1].startswith("ordering") or c[1].startswith("foreign-name/fused"))]
+        keep = [c for c in cases if c[1].startswith("ordering") or c[1].startswith("foreign-name/fused") or c[1] == "more-than-five-members"]
+        rest = [c for c in cases if not (c[1].startswith("ordering") or c[1].startswith("foreign-name/fused") or c[1] == "more-than-five-members")]
         rng.shuffle(rest)
         cases = keep + rest[:1400]
     # one case in four signs the domain itself (primaryType EIP712Domain, message = domain): the domain check is the same
